@@ -62,6 +62,16 @@ pub(crate) mod verif_stubs_dec {
         }
     }
 
+    /// Puts the coder into an arbitrary (state, reps) configuration - the "arbitrary pre-state" idiom for step harnesses.
+    pub(crate) fn verif_set_state(d: &mut LZMADecoder, state: u8, reps: [i32; 4]) {
+        d.coder.state = State::from(state);
+        d.coder.reps = reps;
+    }
+
+    pub(crate) fn verif_get_state(d: &LZMADecoder) -> (u8, [i32; 4]) {
+        (d.coder.state.get(), d.coder.reps)
+    }
+
     pub(crate) fn decoders_equal(a: &LZMADecoder, b: &LZMADecoder) -> bool {
         let c = |x: &LZMACoder, y: &LZMACoder| {
             x.pos_mask == y.pos_mask && x.reps == y.reps && x.state == y.state && x.is_match == y.is_match
